@@ -111,6 +111,9 @@ ResultIsRequested == pc = "done" => k2 = L2(r1, r2)
 (* error exactly when the seed material does not cover the request            *)
 RejectIffNotCovered == Terminal => (pc = "reject" <=> ~CoversReq)
 
+(* seed material of another L0 interval never yields a key (stated independently of CoversReq) *)
+OtherL0Rejected == (Terminal /\ dl0 # 0) => pc = "reject"
+
 (* bounded work                                                              *)
 BoundedKdf == calls <= MaxKdfCalls
 
